@@ -80,6 +80,34 @@ pub fn query_stopped() -> bool {
     unsafe { SUIRON_STOP_QUERY }
 }
 
+// ---------------------------------------------------------------------
+// Verification hook (compiled only with --cfg suiron_verif).
+// Makes the timer's write to SUIRON_STOP_QUERY land at a chosen point of
+// the search: the n-th call of count_rules() after verif_arm(n).
+#[cfg(suiron_verif)]
+static mut VERIF_TICKS: usize = 0;
+#[cfg(suiron_verif)]
+static mut VERIF_FIRE_AT: usize = 0; // 0 = never
+
+/// Counts one call of count_rules(); stops the query at the armed tick.
+#[cfg(suiron_verif)]
+pub fn verif_tick() {
+    unsafe {
+        VERIF_TICKS += 1;
+        if VERIF_FIRE_AT != 0 && VERIF_TICKS == VERIF_FIRE_AT { SUIRON_STOP_QUERY = true; }
+    }
+}
+
+/// Resets the tick counter and arms the hook (0 = never fire).
+#[cfg(suiron_verif)]
+pub fn verif_arm(fire_at: usize) {
+    unsafe { VERIF_TICKS = 0; VERIF_FIRE_AT = fire_at; }
+}
+
+/// Number of count_rules() calls since verif_arm().
+#[cfg(suiron_verif)]
+pub fn verif_ticks() -> usize { unsafe { VERIF_TICKS } }
+
 #[cfg(test)]
 mod test {
 
